@@ -610,9 +610,15 @@ def main():
         ):
             old_value = old_value.replace(" ", "\n")
 
+        saved_value = Nodes.clone_node(old_value)
+        if hasattr(saved_value, "anchor"):
+            # The copy is a new, independent node; were it to define the
+            # original's Anchor a second time, the file would not load again.
+            saved_value.anchor.value = None
+
         try:
             processor.set_value(
-                saveto_path, Nodes.clone_node(old_value),
+                saveto_path, saved_value,
                 value_format=old_format, tag=args.tag)
         except YAMLPathException as ex:
             log.critical(ex, 1)
